@@ -295,7 +295,7 @@ Inductive texpr :=
 | ETuple (l : list texpr)
 | EList (l : list texpr)
 | EOr (a b : texpr)           (* a | b *)
-| EAttr (e : texpr) (a : string)   (* e.a where e is a name that is not defined (`typing.List`): only the NameError is modelled *)
+| EAttr (e : texpr) (a : string)   (* e.a for an attribute no object of the vocabulary has: NameError of e (`typing.List`), else AttributeError (`int.foo`) *)
 | EInvalidSyntax.             (* the text is not a Python expression *)
 
 (* eval(text, globals(), context): the context (locals) is searched first.  Every entry of the
